@@ -547,7 +547,7 @@ class Interp:
         if isinstance(cls, Builtin):
             t = {
                 "int": lambda x: (isinstance(x, int) and not isinstance(x, bool)) or (isinstance(x, Rat) and _integer_valued(x)),
-                "float": lambda x: isinstance(x, (float, Fraction)),
+                "float": lambda x: isinstance(x, (float, Fraction)) or (isinstance(x, Rat) and getattr(self, "rat_is_float", False)),
                 "complex": lambda x: isinstance(x, complex),
                 "bool": lambda x: isinstance(x, bool),
                 "str": lambda x: isinstance(x, str),
